@@ -140,6 +140,7 @@ def make_world(world_id):
         e = mv((3,), (1,))
         z = mv((3,), (0,))
         nullb = mv((3,), (0,))
+        st1, st2 = mv((0, 3), (5, -4)), mv((3, 0), (-3, 6))       # Study numbers (scalar + pseudoscalar) in two storage orders
     else:
         # Algebra(2,0,1): e0=1 (null), e1=2, e2=4; canonical order (0,1,2,4,3,5,6,7), binary order differs
         x1 = mv((2, 4), (3, 5))
@@ -150,11 +151,12 @@ def make_world(world_id):
         e = mv((6,), (1,))
         z = mv((6,), (0,))
         nullb = mv((1,), (2,))          # the null generator e0: no inverse, the division fails during generation
+        st1, st2 = mv((0, 7), (5, -4)), mv((7, 0), (-3, 6))
     import sympy
     s1 = alg.multivector(keys=x1.keys(), values=[sympy.Symbol('u1'), sympy.Symbol('u2')])
     s2 = alg.multivector(keys=x2.keys(), values=[sympy.Symbol('u2'), sympy.Symbol('u1')])
     t1 = alg.multivector(keys=x1.keys(), values=[sympy.Symbol('u1') + sympy.Symbol('u2'), sympy.Symbol('u1') - sympy.Symbol('u2')])
-    ctx = dict(alg=alg, other=other, t1=t1, x1=x1, x2=x2, x3=x3, x4=x4, x5=x5, e=e, z=z, s1=s1, s2=s2, nullb=nullb,
+    ctx = dict(alg=alg, other=other, t1=t1, x1=x1, x2=x2, x3=x3, x4=x4, x5=x5, e=e, z=z, s1=s1, s2=s2, nullb=nullb, st1=st1, st2=st2,
                y=other.multivector(keys=(1,), values=[F(1)]))
 
     def f(a, b):
@@ -188,7 +190,7 @@ def make_world(world_id):
         def outer(a, b):
             return ctx['tw'][0](a, b) + b
         ctx['outer'] = alg.register(outer)
-    ctx['_operands'] = ['x1', 'x2', 'x3', 'x4', 'x5', 'e', 'z', 's1', 's2', 'y', 't1']
+    ctx['_operands'] = ['x1', 'x2', 'x3', 'x4', 'x5', 'e', 'z', 's1', 's2', 'y', 't1', 'st1', 'st2']
     ctx['_redef_world'] = bool(w.get('redef')) or bool(w.get('samename'))
     ctx['_objworld'] = bool(w.get('obj'))
     return ctx
@@ -461,6 +463,7 @@ def fault_task(task):
 P_BINARY = ['gp', 'sw', 'cp', 'acp', 'ip', 'sp', 'lc', 'rc', 'op', 'rp', 'proj', 'add', 'sub', 'div']
 P_UNARY = ['inv', 'neg', 'reverse', 'involute', 'conjugate', 'polarity', 'unpolarity', 'hodge', 'unhodge', 'normsq', 'outerexp', 'outersin', 'outercos', 'outertan']
 P_LAYOUTS = ['x2', 'x5', 'x1', 'x4']
+P_STUDY = ['sqrt', 'norm', 'normalized']          # on Study numbers st1 / st2 (the same blades in two storage orders)
 
 
 def _pcall(ctx, sym):
@@ -521,6 +524,14 @@ def pair_histories(tier):
         for op in ops:
             for l1, l2 in (('x1', 'x2'), ('x2', 'x1'), ('x4', 'x5'), ('x5', 'x4')):
                 out.append(((op, l1, mode), (op, l2, mode)))
+        for op in P_STUDY:
+            for l1, l2 in (('st1', 'st2'), ('st2', 'st1')):
+                out.append(((op, l1, mode), (op, l2, mode)))
+        for a in P_STUDY:
+            for b in P_STUDY + ['normsq', 'inv']:
+                if a != b:
+                    out.append(((a, 'st2', mode), (b, 'st2', mode)))
+                    out.append(((b, 'st1', mode), (a, 'st1', mode)))
         # two different operators on the same operands
         for lay in (('x2', 'x5') if tier == 'thorough' else ('x2',)):
             for a in ops:
